@@ -756,3 +756,176 @@ func errorResultIndex(fn *ssa.Function) int {
 	}
 	return res.Len() - 1
 }
+
+// family: fn, its closures, and the module-local functions it calls statically (transitively, up to depth 3) that are called
+// from nowhere else - i.e. pieces of fn that a refactoring has moved into private helpers. Rules that look for "something
+// inside fn" look inside its family.
+func family(L *Loaded, fn *ssa.Function) []*ssa.Function {
+	if fn == nil {
+		return nil
+	}
+	pkg := fn.Pkg
+	if pkg == nil && fn.Parent() != nil {
+		pkg = fn.Parent().Pkg
+	}
+	var pkgFns []*ssa.Function
+	for f := range L.NonTest {
+		p := f.Pkg
+		if p == nil && f.Parent() != nil {
+			p = f.Parent().Pkg
+		}
+		if p == pkg {
+			pkgFns = append(pkgFns, f)
+		}
+	}
+	callers := map[*ssa.Function]map[*ssa.Function]bool{}
+	for _, f := range pkgFns {
+		for _, cs := range callsIn(f) {
+			if cal := cs.common.StaticCallee(); cal != nil {
+				cal = originOf(cal)
+				if callers[cal] == nil {
+					callers[cal] = map[*ssa.Function]bool{}
+				}
+				root := f
+				for root.Parent() != nil {
+					root = root.Parent()
+				}
+				callers[cal][root] = true
+			}
+		}
+		// functions used as values (method values, function arguments) have unknown callers
+		for _, b := range f.Blocks {
+			for _, in := range b.Instrs {
+				for _, op := range in.Operands(nil) {
+					if op == nil || *op == nil {
+						continue
+					}
+					if g, ok := (*op).(*ssa.Function); ok {
+						if ci, isCall := in.(ssa.CallInstruction); isCall && ci.Common().Value == ssa.Value(g) {
+							continue
+						}
+						if callers[g] == nil {
+							callers[g] = map[*ssa.Function]bool{}
+						}
+						callers[g][nil] = true
+					}
+				}
+			}
+		}
+	}
+	in := map[*ssa.Function]bool{fn: true}
+	out := []*ssa.Function{}
+	frontier := []*ssa.Function{fn}
+	for d := 0; d < 4 && len(frontier) > 0; d++ {
+		var next []*ssa.Function
+		for _, f := range frontier {
+			for _, w := range withClosures(f) {
+				out = append(out, w)
+				if d == 3 {
+					continue
+				}
+				for _, cs := range callsIn(w) {
+					cal := cs.common.StaticCallee()
+					if cal == nil {
+						continue
+					}
+					cal = originOf(cal)
+					if in[cal] || cal.Pkg != pkg || len(cal.Blocks) == 0 || !L.NonTest[cal] {
+						continue
+					}
+					only := true
+					for caller := range callers[cal] {
+						if caller == nil || !in[caller] {
+							only = false
+						}
+					}
+					if only {
+						in[cal] = true
+						next = append(next, cal)
+					}
+				}
+			}
+		}
+		frontier = next
+	}
+	return out
+}
+
+// storesInto: the stores into fields / elements of a local allocation.
+func storesInto(al *ssa.Alloc) []*ssa.Store {
+	var out []*ssa.Store
+	if al.Referrers() == nil {
+		return nil
+	}
+	for _, r := range *al.Referrers() {
+		switch x := r.(type) {
+		case *ssa.FieldAddr:
+			for _, r2 := range *x.Referrers() {
+				if st, ok := r2.(*ssa.Store); ok && st.Addr == ssa.Value(x) {
+					out = append(out, st)
+				}
+			}
+		case *ssa.IndexAddr:
+			for _, r2 := range *x.Referrers() {
+				if st, ok := r2.(*ssa.Store); ok && st.Addr == ssa.Value(x) {
+					out = append(out, st)
+				}
+			}
+		}
+	}
+	return out
+}
+
+// nodeTreeContains: starting from root (a node, a slice literal of nodes, ...), following what is stored into the slots and
+// elements of locally built values, some local allocation satisfies pred.
+func nodeTreeContains(fn *ssa.Function, root ssa.Value, pred func(*ssa.Alloc) bool) bool {
+	seen := map[ssa.Value]bool{}
+	var walk func(v ssa.Value, d int) bool
+	walk = func(v ssa.Value, d int) bool {
+		if v == nil || seen[v] || d > 12 {
+			return false
+		}
+		seen[v] = true
+		switch x := v.(type) {
+		case *ssa.Alloc:
+			if pred(x) {
+				return true
+			}
+			for _, st := range storesInto(x) {
+				if walk(st.Val, d+1) {
+					return true
+				}
+			}
+			// a variable cell: what was stored into it
+			for _, st := range storesTo(x) {
+				if walk(st.Val, d+1) {
+					return true
+				}
+			}
+		case *ssa.Slice:
+			return walk(x.X, d+1)
+		case *ssa.MakeInterface:
+			return walk(x.X, d+1)
+		case *ssa.ChangeType:
+			return walk(x.X, d+1)
+		case *ssa.UnOp:
+			return walk(x.X, d+1)
+		case *ssa.Phi:
+			for _, e := range x.Edges {
+				if walk(e, d+1) {
+					return true
+				}
+			}
+		case *ssa.Call:
+			if bi, ok := x.Common().Value.(*ssa.Builtin); ok && bi.Name() == "append" {
+				for _, a := range x.Common().Args {
+					if walk(a, d+1) {
+						return true
+					}
+				}
+			}
+		}
+		return false
+	}
+	return walk(root, 0)
+}
